@@ -216,6 +216,10 @@ def run(tier):
     check_model(ck, m3, "examples", CUSTOM_IMPL, stats)
     check_accessors(ck, ex, None, "examples")
     ck.floor("generated methods in repository", stats["methods"] - n_corpus, 80)
+    # results cross the boundary through the conversion rows (C02/C12) and, for #[int_result] methods, through the four integer-code
+    # helpers: a helper that mis-decodes a code changes the result of the opaque call although forwarding is intact
+    from rules import c13
+    c13.check_helpers(ck)
     ck.extra["methods_checked"] = stats["methods"]
     ck.extra["excluded_custom_or_vtbl_only"] = stats["excluded"]
     ck.extra["methods_without_opaque_impl_in_unit"] = sorted(set(stats["no_opaque"]))[:40]
